@@ -36,7 +36,9 @@ func (d *DebugDialer) Dial(ctx context.Context, urlstr string) (conn net.Conn, b
 		reqBuf bytes.Buffer
 		resBuf bytes.Buffer
 
-		resContentLength int64
+		// resLen is the number of bytes of resBuf that form the response (head
+		// and body) as consumed by the HTTP response parser.
+		resLen int
 	)
 	userWrap := dialer.WrapConn
 	dialer.WrapConn = func(c net.Conn) net.Conn {
@@ -53,9 +55,9 @@ func (d *DebugDialer) Dial(ctx context.Context, urlstr string) (conn net.Conn, b
 		)
 		if d.OnResponse != nil {
 			r = &prefetchResponseReader{
-				source:        conn,
-				buffer:        &resBuf,
-				contentLength: &resContentLength,
+				source: conn,
+				buffer: &resBuf,
+				length: &resLen,
 			}
 		}
 		if d.OnRequest != nil {
@@ -71,11 +73,13 @@ func (d *DebugDialer) Dial(ctx context.Context, urlstr string) (conn net.Conn, b
 	}
 	if onResponse := d.OnResponse; onResponse != nil {
 		// We must split response inside buffered bytes from other received
-		// bytes from server.
+		// bytes from server. The response parser knows where the response
+		// ends, whatever line endings the server uses.
 		p := resBuf.Bytes()
-		n := bytes.Index(p, headEnd)
-		h := n + len(headEnd)         // Head end index.
-		n = h + int(resContentLength) // Body end index.
+		n := resLen // Response (head and body) end index.
+		if n > len(p) {
+			n = len(p)
+		}
 
 		onResponse(p[:n])
 
@@ -87,16 +91,16 @@ func (d *DebugDialer) Dial(ctx context.Context, urlstr string) (conn net.Conn, b
 			// instance from above WrapConn call. It is incorrect, so we must
 			// fix it.
 			var r io.Reader = conn
-			if len(p) > h {
-				// Buffer contains more than just HTTP headers bytes.
+			if len(p) > n {
+				// Buffer contains more than just HTTP response bytes.
 				r = io.MultiReader(
-					bytes.NewReader(p[h:]),
+					bytes.NewReader(p[n:]),
 					conn,
 				)
 			}
 			br.Reset(r)
 			// Must make br.Buffered() to be non-zero.
-			br.Peek(len(p[h:]))
+			br.Peek(len(p[n:]))
 		}
 	}
 
@@ -118,24 +122,29 @@ func (rwc rwConn) Write(p []byte) (int, error) {
 	return rwc.w.Write(p)
 }
 
-var headEnd = []byte("\r\n\r\n")
-
 type prefetchResponseReader struct {
 	source io.Reader // Original connection source.
 	reader io.Reader // Wrapped reader used to read from by clients.
 	buffer *bytes.Buffer
 
-	contentLength *int64
+	length *int // Number of buffered bytes that form the response.
 }
 
 func (r *prefetchResponseReader) Read(p []byte) (int, error) {
 	if r.reader == nil {
-		resp, err := http.ReadResponse(bufio.NewReader(
+		br := bufio.NewReader(
 			io.TeeReader(r.source, r.buffer),
-		), nil)
+		)
+		resp, err := http.ReadResponse(br, nil)
 		if err == nil {
-			*r.contentLength, _ = io.Copy(ioutil.Discard, resp.Body)
+			io.Copy(ioutil.Discard, resp.Body)
 			resp.Body.Close()
+			// All that is buffered but not yet consumed by the parser was
+			// sent by the server after the response.
+			*r.length = r.buffer.Len() - br.Buffered()
+		} else {
+			// Not a response the parser understands: report all bytes read.
+			*r.length = r.buffer.Len()
 		}
 		bts := r.buffer.Bytes()
 		r.reader = io.MultiReader(
